@@ -456,7 +456,9 @@ class CodeBuilder:
 
                 filtered_fields.append((fname, alias, ftype))
             if config.forbid_extra_keys:
-                allowed_keys = {f[1] or f[0] for f in filtered_fields}
+                allowed_keys = {
+                    f[0] if f[1] is None else f[1] for f in filtered_fields
+                }
 
                 # If a discriminator with a field is set via config,
                 # we should allow this field to be present in the input
@@ -890,7 +892,7 @@ class CodeBuilder:
                     fname, ftype, config, force_value
                 )
                 packers[fname] = packer
-                if alias:
+                if alias is not None:
                     aliases[fname] = alias
                 if could_be_none:
                     nullable_fields.add(fname)
@@ -1368,15 +1370,16 @@ class FieldUnpackerCodeBlockBuilder:
                 packed_value = f"__{fname}"
                 unpacked_value = packed_value
         else:
+            key = fname if alias is None else alias
             if unpacked_value != "value":
-                self.add_line(f"value = d.get({alias or fname!r}, MISSING)")
+                self.add_line(f"value = d.get({key!r}, MISSING)")
                 packed_value = "value"
             elif has_default:
-                self.add_line(f"value = d.get({alias or fname!r}, MISSING)")
+                self.add_line(f"value = d.get({key!r}, MISSING)")
                 packed_value = "value"
             else:
                 self.add_line(
-                    f"__{fname} = d.get({alias or fname!r}, MISSING)"
+                    f"__{fname} = d.get({key!r}, MISSING)"
                 )
                 packed_value = f"__{fname}"
                 unpacked_value = packed_value
